@@ -1527,7 +1527,7 @@ def rectify_beats(sequence, beats_per_minute):
   rectified_beat_times = seconds_per_beat * np.arange(num_beats)
   def time_func(t):
     return np.interp(t, unique_beat_times, rectified_beat_times,
-                     left=0.0, right=sequence.total_time)
+                     left=0.0, right=rectified_beat_times[-1])
 
   rectified_sequence, _ = adjust_notesequence_times(sequence, time_func)
 
